@@ -80,6 +80,7 @@ def run(ctx, repo):
     ctx.rule('R6', 'ordering constants: track < hurdles < jumps < throws < relays < other; FIELD_SORT_ORDER lists '
                    'HJ PV LJ TJ SP DT HT JT in that order; text key = one digit + zero-padded >=5 digits; sorter keys only')
     ctx.rule('R7', 'relay distance = int(number of legs) * leg distance')
+    ctx.rule('R10', 'the order component of a sort key is never the bare result of a function that can return None')
     ctx.rule('R9', 'case folding of a relay leg does not move it to another unit arm of get_distance (m metres / M miles)')
     ctx.rule('R8', 'the distance component of a sort key is computed from text that still carries the unit letter (K / M) the pattern admits')
     n_sinks = 0
@@ -258,6 +259,22 @@ def check_sort_key_shape(ctx, P, utils, fn, consts):
         if pat in ('PAT_TRACK', 'PAT_HURDLES', 'PAT_RELAYS') and isinstance(second, ast.Constant):
             ctx.finding('R6', '%s::discipline_sort_key::%s order component' % (UTILS, pat), UTILS, r.lineno,
                         'the %s arm orders by a constant instead of the distance' % pat)
+    # R10: the order component is never None: a name that reaches it must not be bound to the bare result of a function that can return
+    # None (the `or 0` idiom, a None test, or an int conversion is what makes it a number); text_discipline_sort_key formats it with %d
+    from ..cfg import reaching_defs
+    for pat, r, st in arms:
+        if not (isinstance(r.value, ast.Tuple) and len(r.value.elts) == 3):
+            continue
+        sec = r.value.elts[1]
+        cands = [sec] if isinstance(sec, ast.Name) else []
+        for nm in cands:
+            for d in reaching_defs(fn, nm.id, nm):
+                if isinstance(d, ast.Assign) and isinstance(d.value, ast.Call) and isinstance(d.value.func, ast.Name) \
+                        and utils.has_func(d.value.func.id) and Interp.may_return_none(utils.func(d.value.func.id)):
+                    ctx.finding('R10', '%s::discipline_sort_key::%s order component may be None' % (UTILS, pat or 'fall-through'), UTILS, d.lineno,
+                                '`%s` binds the order component to the bare result of %s, which returns None for some codes: the key then holds None, '
+                                'text_discipline_sort_key (%%05d) raises TypeError and sorting mixed lists compares None with int' % (
+                                    unparse(d), d.value.func.id), 'SC')
     # R8: where the arm's pattern admits a distance written with a unit (digit followed by K, k or M - the letters with a multiplier; a lower-case m is metres: 4x1.5K), the order component must be
     # computed from text that still carries the unit: the groups (or the whole code) that the component reads, closed over the arm's
     # local definitions, must be able to hold a digit followed by the unit letter
@@ -356,8 +373,34 @@ def check_text_key(ctx, utils):
                             'text key format %r is not <digit><sep><zero-padded >=5 digits><sep><text>: below 100 km '
                             'it must sort exactly like the tuple key' % v.left.value, v.left.value)
                 return
+    if not ok:
+        # second form:  a, b, c = discipline_sort_key(x); return FORMAT % (a, b, c)
+        unp = [n for n in fn.body if isinstance(n, ast.Assign) and isinstance(n.targets[0], ast.Tuple) and isinstance(n.value, ast.Call)
+               and call_name(n.value) == 'discipline_sort_key' and all(isinstance(x, ast.Name) for x in n.targets[0].elts)]
+        for r in rets:
+            v = r.value
+            if unp and isinstance(v, ast.BinOp) and isinstance(v.op, ast.Mod) and isinstance(v.left, ast.Constant) and isinstance(v.right, ast.Tuple) \
+                    and len(v.right.elts) == 3:
+                import re
+                names3 = [x.id for x in unp[0].targets[0].elts]
+                specs = re.findall(r'%(0?)(\d*)([ds])', v.left.value)
+                fmt_ok = len(specs) == 3 and specs[0] == ('', '', 'd') and specs[1][0] == '0' and specs[1][1].isdigit() \
+                    and int(specs[1][1]) >= 5 and specs[1][2] == 'd' and specs[2][2] == 's'
+                changed = [i for i, (a, nm) in enumerate(zip(v.right.elts, names3)) if not (isinstance(a, ast.Name) and a.id == nm)]
+                if not fmt_ok:
+                    ctx.finding('R6', '%s::text_discipline_sort_key::format' % UTILS, UTILS, r.lineno,
+                                'text key format %r is not <digit><sep><zero-padded >=5 digits><sep><text>' % v.left.value, v.left.value)
+                    return
+                if changed:
+                    ctx.finding('R6', '%s::text_discipline_sort_key::component %d altered' % (UTILS, changed[0] + 1), UTILS, r.lineno,
+                                'the text key prints `%s` instead of component %d of the tuple key unchanged: characters are replaced, and the '
+                                'replacement sorts differently from the original (a blank sorts before digits and letters, `_` after them), so the '
+                                'text key no longer orders codes like the tuple key' % (unparse(v.right.elts[changed[0]]), changed[0] + 1),
+                                "'400H 84cm' vs '400H33'")
+                    return
+                ok = True
     if ok:
-        ctx.ok('R6', 'text key format: one digit, zero-padded width>=5, text')
+        ctx.ok('R6', 'text key format: one digit, zero-padded width>=5, text; the three components are printed unchanged')
     else:
         raise AnalysisError('text_discipline_sort_key: return is not "<format>" % discipline_sort_key(...)')
 
